@@ -13,6 +13,7 @@
         Functional(p).assemble(basis) = exact integral of p over the meshed domain / subdomain / facet set *) *)
 From Coq Require Import Arith List ZArith Ring Field.
 Require Import Base.C02_Ops Model.C02_Integration Proofs.C02_IntegrationProofs Gen.C02Gen Dyn.C02Tie.
+Require Model.C08_Rules Proofs.C08_TensorProofs.
 Import ListNotations.
 
 Section AnyRing.
@@ -141,6 +142,20 @@ Theorem C02_default_order_partial : forall (maxdeg k : nat) (a b : list nat),
    list_sum (exp_add a b) <= gen_intorder None maxdeg).
 Proof. intros. split; [apply explicit_order_respected|apply default_order_covers_mass]. Qed.
 Print Assumptions C02_default_order_partial.
+
+(* the tensor-product construction of the quadrilateral / hexahedron / prism rules (proved with C08, unbounded:
+   ANY two rules, ANY degree): exact factors give an exact product rule *)
+Theorem C02_tensor_rule_exact :
+  forall (R1 R2 : C08_Rules.qrule) (s1 s2 : C08_Rules.shape) (n : nat),
+  (forall nd, In nd R1 -> length (fst nd) = C08_Rules.dim s1) ->
+  (forall es, length es = C08_Rules.dim s1 -> C08_Rules.deg_ok s1 n es ->
+     QArith_base.Qeq (C08_Rules.qrule_sum R1 es) (C08_Rules.exactQ s1 es)) ->
+  (forall es, length es = C08_Rules.dim s2 -> C08_Rules.deg_ok s2 n es ->
+     QArith_base.Qeq (C08_Rules.qrule_sum R2 es) (C08_Rules.exactQ s2 es)) ->
+  forall es, length es = C08_Rules.dim (s1 ++ s2) -> C08_Rules.deg_ok (s1 ++ s2) n es ->
+    QArith_base.Qeq (C08_Rules.qrule_sum (C08_Rules.tensorQ R1 R2) es) (C08_Rules.exactQ (s1 ++ s2) es).
+Proof. exact C08_TensorProofs.tensor_rule_exact. Qed.
+Print Assumptions C02_tensor_rule_exact.
 
 (* ---- non-vacuity: Z and Qc are instances; a mirrored triangle has det -1, |det| 1; a concrete inverse *)
 Example C02_instances :
